@@ -6,12 +6,32 @@ from xml.sax.saxutils import escape, quoteattr
 from . import alpha
 from .world import World
 
-LET = {"a": "a", "A": "A", "b": "b", "s": "s", "e'": "é", "E'": "É", "sp": " ", "ss'": "ß", "ls'": "ſ"}
+LET = {"a": "a", "A": "A", "b": "b", "s": "s", "e'": "é", "E'": "É", "sp": " ", "ss'": "ß", "ls'": "ſ",
+       "cm": ",", "sc": ";", "LF": "x" * 69}
 CARD = "urn:ietf:params:xml:ns:carddav"
 
 
 def text(seq):
     return "".join(LET[x] for x in seq)
+
+
+def vesc(t):
+    """vCard TEXT escaping"""
+    return t.replace("\\", "\\\\").replace(",", "\\,").replace(";", "\\;").replace("\n", "\\n")
+
+
+def vfold(line):
+    """fold a content line at 75 octets (never inside a UTF-8 sequence)"""
+    out, cur = [], b""
+    for ch in line:
+        e = ch.encode("utf-8")
+        if len(cur) + len(e) > 75:
+            out.append(cur)
+            cur = b" " + e
+        else:
+            cur += e
+    out.append(cur)
+    return b"\r\n".join(out).decode("utf-8")
 
 
 def vcard(card, uid):
@@ -25,7 +45,7 @@ def vcard(card, uid):
         else:
             lines.append("EMAIL:" + text(inst["v"]))
     for inst in card.get("NOTE", []):
-        lines.append("NOTE:" + text(inst["v"]))
+        lines.append(vfold("NOTE:" + vesc(text(inst["v"]))))
     lines.append("END:VCARD")
     return ("\r\n".join(lines) + "\r\n").encode("utf-8")
 
